@@ -234,6 +234,7 @@ CharOf(cp) ==
      [] cp = 13 -> "\r"
      [] cp = 9 -> "\t"
      [] cp = 233 -> "@E"
+     [] cp = 3585 -> "@K"
      [] cp = 12354 -> "@T"
      [] cp = 128512 -> "@Q"
      [] OTHER -> "<x" \o HexStr(cp) \o ">"
